@@ -36,9 +36,13 @@
 (* DEVS names the places where the current tree departs from the intended   *)
 (* behaviour (DESIGN.md 7).  With DEVS = {} the model satisfies PropTags =   *)
 (* {} (checked exhaustively); trace validation's strict lane uses the set   *)
-(* of the current tree:                                                     *)
+(* of the current tree (after the fix commits for L10 and L21 that is       *)
+(* {"SymDiff"}; the other two branches stay in the model as documentation   *)
+(* of what was repaired and for the deviation guard):                       *)
 (*   "EmptySigPhase1"   a present-but-empty BlsSignature passes phase one   *)
-(*                      and is stored as nil (L10)                          *)
+(*                      and is stored as nil; the epoch hook dereferences   *)
+(*                      the nil task of a group without signatures instead  *)
+(*                      of skipping the group (L10)                         *)
 (*   "SymDiff"          non-signers = SYMMETRIC difference of opt-in list   *)
 (*                      and signers (types.Difference)                      *)
 (*   "ChallengeWrapNil" a wrong task hash makes RaiseAndResolveChallenge    *)
@@ -291,8 +295,10 @@ StatsOfGroup(st, tk) ==
                  THEN NRem(DecMul(DecQuo(total, sumP, PREC), DecFromInt(100, PREC), PREC), U64)
                  ELSE task.actual
   IN
-  IF signers = {} THEN [panic |-> TRUE, task |-> task]          \* GetTaskInfo("0", "") fails, nil taskInfo dereferenced
-  ELSE IF ~st.avsusd[a].ex THEN [panic |-> TRUE, task |-> task] \* nil LegacyDec
+  \* no signer: GetTaskInfo("0", "") fails. Tree with the commented-out `continue`s (deviation EmptySigPhase1, L10):
+  \* the nil taskInfo is dereferenced; with the `continue`s restored the group is skipped (task left as it is).
+  \* Likewise for a missing AVS USD value (nil LegacyDec).
+  IF signers = {} \/ ~st.avsusd[a].ex THEN [panic |-> "EmptySigPhase1" \in DEVS, task |-> task]
   ELSE [panic |-> FALSE,
         task |-> [task EXCEPT !.signed = signed, !.nosigned = OpsSeq(nos),
                               !.powers = [i \in 1..Len(signed) |-> [o |-> signed[i], p |-> power(signed[i])]],
